@@ -72,7 +72,7 @@ pub fn fatal_spin(cpu_s: f64) -> ! {
         }
     }
     inspect::kill_descendants();
-    unsafe { libc::syscall(libc::SYS_exit_group, 4) };
+    unsafe { crate::rsys!(libc::SYS_exit_group, 4) };
     unreachable!()
 }
 
@@ -86,7 +86,7 @@ pub fn fatal_inconclusive(why: &str) -> ! {
         }
     }
     inspect::kill_descendants();
-    unsafe { libc::syscall(libc::SYS_exit_group, 3) };
+    unsafe { crate::rsys!(libc::SYS_exit_group, 3) };
     unreachable!()
 }
 
@@ -245,6 +245,15 @@ impl Ctx {
         for (k, v) in &self.stats {
             stats.put(k, J::Int(*v));
         }
+        let raw = RAW_SYSCALLS_SEEN.load(SeqCst);
+        if raw > 0 {
+            // the library went to the kernel through syscall() with numbers the monitors do not model: whatever those
+            // calls did was not observed through the usual entry points - no verdict is given on such a run
+            let j = J::obj().set("type", J::s("inconclusive")).set("why", J::s(&format!("monitor blind spot: {} direct syscall() invocation(s) by the library that the monitors do not model", raw))).set("detail", J::Null);
+            for _ in 0..(self.cases / 20 + 4) {
+                let _ = writeln!(self.out, "{}", j.dump());
+            }
+        }
         let j = J::obj()
             .set("type", J::s("summary"))
             .set("shard", J::i(self.shard as i64))
@@ -319,7 +328,7 @@ pub fn install_panic_hook() {
             }
             let line = info.location().map(|l| l.line() as i64).unwrap_or(0);
             ilog::log(ilog::k::PANIC, [line, 0, 0, 0], 0, 0, 0);
-            unsafe { libc::syscall(libc::SYS_exit_group, 101) };
+            unsafe { crate::rsys!(libc::SYS_exit_group, 101) };
         }
         let msg = if let Some(s) = info.payload().downcast_ref::<&str>() {
             s.to_string()
@@ -365,8 +374,13 @@ pub fn monitored<T>(f: impl FnOnce() -> T) -> Monitored<T> {
     Monitored { result, panic, cert, hard_timeout: hard, ev_start, ev_end, t0_vt: t0, t1_vt: t1 }
 }
 
+pub static RAW_SYSCALLS_SEEN: std::sync::atomic::AtomicUsize = std::sync::atomic::AtomicUsize::new(0);
+
 /// End of a case: kill and reap whatever is left, so that cases do not influence each other.
 pub fn end_case() {
+    if let Some(s) = ilog::shared() {
+        RAW_SYSCALLS_SEEN.fetch_add(s.unmodelled_raw_syscalls.load(SeqCst), SeqCst);
+    }
     ilog::disarm();
     plan::clear();
     vclock::disable();
